@@ -86,7 +86,7 @@ func H_C09_prec() {
 
 var c09Terms = []string{
 	".", "..", ".a", ".\"a\"", ".[0]", ".[1:2]", ".[]", "1", "1.5", "\"s\"", "\"a\\(1)b\"", "@base64", "@json \"x\\(.)\"", "null", "true", "[1]", "[]", "{a:1}", "{}", "(1)", "-1", "f", "f(1;2)",
-	"$x", "$__loc__", "if 1 then 2 end", "try 1", "reduce 1 as $x (2;3)", "foreach 1 as $x (2;3;4)", "break $l", ".a.b", ".\"a\".\"b\"", ".and", ".a?", "..?", "{(1):2}", "{\"a\\(1)\":2}", "{$x}", "{a}", "{@base64:1}",
+	"$x", "$__loc__", "if 1 then 2 end", "try 1", "reduce 1 as $x (2;3)", "foreach 1 as $x (2;3;4)", "break $l", ".a.b", ".\"a\".\"b\"", ".and", ".a?", "..?", "{(1):2}", "{\"a\\(1)\":2}", "{$x}", "{a}", "{@base64:1}", "\"\\\"\\(.)\\\"\"", "\"say \\\"\\(.)\\\" twice\"", "@json \"\\\"\\(1)\\\"\"", ".\"a\\\"\\(1)\"", "{\"k\\\"\\(1)\": 2}", "\"\\\\\\(1)\"", "\"\\(\"\\\"\")\"", "\"a\\\\\"", "\"\\t\\(1)\\n\"",
 }
 
 var c09Suffixes = []string{"", ".a", ".\"a\"", ".[0]", "[0]", "[1:2]", ".[1:2]", "[]", ".[]", "?", " .a", " .[0]", " . [0]", ".\"a\\(1)\"", "[.a]", "[:1]", "[1:]", ".and", " ?", ".[\"a\"]", ". a"}
